@@ -364,7 +364,11 @@ Proof.
 Qed.
 
 Lemma rinv_reachable cfg fx sp s : 1 <= nworkers cfg -> reachable_gen cfg fx sp s -> RInv cfg s.
-Proof. intros HW. induction 1; [now apply rinv_init | eapply rinv_step; eauto]. Qed.
+Proof.
+  intros HW. induction 1 as [|s te s' R IH H|s te s' R IH H]; [now apply rinv_init | eapply rinv_step; eauto|].
+  destruct te as [t e]. destruct (xstep_inv _ _ _ _ H) as (Et & _ & (_ & _ & _ & _ & T & _) & _).
+  destruct IH as [R1 R2 R3 R4 R5 R6 R7 R8 R9 R10]. constructor; rewrite Et, ?T; auto.
+Qed.
 
 Lemma role_worker_is_worker ts : role_of ts = RWorker -> is_worker ts = true.
 Proof. destruct ts; cbn; congruence. Qed.
